@@ -48,7 +48,8 @@ pub enum Cmd {
     /// `{ cN=K; while probe -s $((cN<=0)) kID; do cN=$((cN-1)); BODY; done; }` (or until)
     Loop { until: bool, id: u32, count: u32, body: Box<Cmd> },
     For { id: u32, words: Vec<&'static str>, body: Box<Cmd> },
-    Case { word: &'static str, items: Vec<(Vec<&'static str>, Cmd)> },
+    /// `terms[i]`: terminator of item i: 0 `;;`, 1 `;&` (run the next body untested), 2 `;|` / 3 `;;&` (go on testing)
+    Case { word: &'static str, items: Vec<(Vec<&'static str>, Cmd)>, terms: Vec<u8> },
     FuncDef(u32, Box<Cmd>),
     Call(u32),
     // ---- processes (C13)
@@ -615,14 +616,31 @@ impl Sh {
                 }
                 flow
             }
-            Cmd::Case { word, items } => {
-                for (pats, body) in items {
-                    if pats.iter().any(|p| case_match(p, word)) {
-                        // an empty body leaves status 0; ours always has commands
-                        return self.run(body, ev);
+            Cmd::Case { word, items, terms } => {
+                // the status of a case command that runs no body is 0
+                let mut ran = false;
+                let mut falling = false;
+                for (i, (pats, body)) in items.iter().enumerate() {
+                    if falling || pats.iter().any(|p| case_match(p, word)) {
+                        if !ran {
+                            ran = true;
+                        }
+                        let flow = self.run(body, ev);
+                        if flow != Flow::Normal {
+                            return flow;
+                        }
+                        match terms.get(i).copied().unwrap_or(0) {
+                            0 => return Flow::Normal,
+                            1 => falling = true,
+                            _ => falling = false,
+                        }
+                    } else {
+                        falling = false;
                     }
                 }
-                self.status = 0;
+                if !ran {
+                    self.status = 0;
+                }
                 Flow::Normal
             }
             Cmd::FuncDef(n, body) => {
@@ -1012,16 +1030,21 @@ impl Render<'_> {
                 let t2 = self.term();
                 format!("for v{id} in {}{t1}do {}{t2}done", words.join(" "), self.list(body))
             }
-            Cmd::Case { word, items } => {
+            Cmd::Case { word, items, terms } => {
                 let mut s = format!("case {word} in ");
-                for (pats, body) in items {
+                for (i, (pats, body)) in items.iter().enumerate() {
                     if self.rng.chance(30) {
                         s.push('(');
                     }
                     s.push_str(&pats.join("|"));
                     s.push_str(") ");
                     s.push_str(&self.list(body));
-                    s.push_str(if self.rng.chance(50) { " ;; " } else { "\n;;\n" });
+                    let t = [";;", ";&", ";|", ";;&"][terms.get(i).copied().unwrap_or(0) as usize];
+                    if self.rng.chance(50) {
+                        s.push_str(&format!(" {t} "));
+                    } else {
+                        s.push_str(&format!("\n{t}\n"));
+                    }
                 }
                 s.push_str("esac");
                 s
@@ -1046,7 +1069,8 @@ impl Render<'_> {
             Cmd::ProbeBang { id, var } => format!("probe k{id} \"$!\" \"$p{var}\""),
             Cmd::CmdSubst { id, out, body } => {
                 let b = self.list(body);
-                if self.rng.chance(30) {
+                // (backquotes do not nest without escaping, and `\` + newline inside them is special)
+                if self.rng.chance(30) && !b.contains('`') && !b.contains('\\') {
                     format!("s{id}=`echo {out}; {b}`")
                 } else {
                     format!("s{id}=$(echo {out}; {b})")
@@ -1323,7 +1347,8 @@ impl<'a> Gen<'a> {
                         (pats, self.list(d, 2))
                     })
                     .collect();
-                Cmd::Case { word, items }
+                let terms = (0..n).map(|_| *self.rng.pick(&[0u8, 0, 0, 1, 1, 2, 3])).collect();
+                Cmd::Case { word, items, terms }
             }
             _ => self.leaf(cx),
         }
